@@ -284,6 +284,16 @@ def _gen_wait_det(rnd, depth=1):
 def gen_retry_waits(rnd):
     spec = gen_retry(rnd, waits="det")
     spec["family"] = "retry_waits"
+    if rnd.random() < 0.05:
+        # many retries of a slowly growing exponential strategy: "all retry counts" includes the far tail
+        n = rnd.randint(70, 110)
+        wait = {"k": "exp", "mult": rnd.choice([0.001, 0.01]), "base": rnd.choice([1.03, 1.06, 1.1]), "max": rnd.choice([5, 60]), "min": 0}
+        if rnd.random() < 0.3:
+            wait = {"k": "chain", "parts": [{"k": "fixed", "w": 0.25}, wait]}
+        pol = {"retry": None, "wait": wait, "stop": {"k": "attempt", "n": n}}
+        spec["steps"] = [{"name": "work", "in": ["Go"], "nw": 1, "retry": pol,
+                          "acts": [{"k": "sleep", "d": 0.125}, {"k": "fail", "n": n - 1, "exc": "E1"}, {"k": "ret", "type": "StopEvent", "result": "v"}]}]
+        spec["meta"] = {"n_fail": n - 1, "excs": ["E1"] * 8, "lats": [0.125] * 8, "policy": pol, "long_tail": True}
     for st in spec["steps"]:
         if st["name"] == "work":
             st["nw"] = 4  # no queueing: the gap between a failure and its retry is then exactly the delay the engine applied
@@ -445,3 +455,23 @@ def gen_dupfan(rnd):
         {"name": "fin", "in": ["EvD"], "nw": 1, "acts": [{"k": "ret", "type": "StopEvent", "result": "const"}]},
     ]
     return {"family": "det", "steps": steps, "timeout": None, "externals": [], "meta": {"n": n, "identical_events": True}}
+
+
+def gen_busyretry(rnd):
+    """A delayed retry comes due while a sibling step blocks the event loop (vclock.burn): when the control loop regains control
+    the wakeup is already overdue and a worker completion is waiting at the same time."""
+    w = rnd.choice([0.3, 0.5, 1.0])
+    b = rnd.choice([0.2, 0.5])
+    lead = rnd.choice([0.05, 0.1])
+    n_cr = rnd.randint(1, 2)
+    steps = [
+        {"name": "start", "in": ["Go"], "nw": 1, "acts": [{"k": "send", "type": "EvA", "items": [{"fails": 1}]},
+                                                         {"k": "send", "type": "EvB", "items": [{"lat": [0.1 + w - lead]} for _ in range(n_cr)]}, {"k": "ret", "type": None}],
+         "declare": ["EvA", "EvB"]},
+        {"name": "flaky", "in": ["EvA"], "nw": 1, "retry": {"wait": {"k": "fixed", "w": w}, "stop": {"k": "attempt", "n": 3}},
+         "acts": [{"k": "sleep", "d": [0.1, 0]}, {"k": "fail", "n": {"from": "fails"}, "exc": "E1"}, {"k": "ret", "type": "EvC"}]},
+        {"name": "cruncher", "in": ["EvB"], "nw": 2, "acts": [{"k": "sleep", "d": {"from": "lat"}}, {"k": "burn", "d": lead + b}, {"k": "ret", "type": None}]},
+        {"name": "join", "in": ["EvC"], "nw": 1, "acts": [{"k": "ret", "type": "StopEvent", "result": "const"}]},
+    ]
+    return {"family": "busyretry", "steps": steps, "timeout": None, "externals": [], "meta": {"retry_wait": w, "burn": lead + b, "retry_due": 0.1 + w}}
+
